@@ -113,6 +113,11 @@ ParentState(ws, p) ==
   IF S = {} THEN "none"
   ELSE IF \E i \in S : ws.uw[i].st = "live" THEN "live" ELSE "other"
 
+\* Inside a recursive tree rooted at the working directory "./sub/x" and "sub/x" are the same true path (the code spells
+\* a directory found by the walk the second way, one created later the first way): compared without the leading ".".
+NormP(p) == IF Len(p) > 1 /\ p[1] = "." THEN Tail(p) ELSE p
+NormIf(c, p) == IF c THEN NormP(p) ELSE p
+
 ApplyRec(ws, r, s, maxq, unordered) ==
   IF ws.phase # "open" \/ r.ino \notin DOMAIN ws.uw THEN ws
   ELSE
@@ -123,7 +128,7 @@ ApplyRec(ws, r, s, maxq, unordered) ==
       mself == HasBit(vis, IN_MOVE_SELF)
       isEnd == dself \/ (mself /\ ~e.rec) \/ ign
       op    == InotifyOpOf(vis)
-      name  == IF r.n = "" THEN e.path ELSE Append(e.path, r.n)
+      name  == NormIf(ws.recursive, IF r.n = "" THEN e.path ELSE Append(e.path, r.n))
       from  == IF HasBit(vis, IN_MOVED_TO) /\ r.ck # 0 /\ r.ck \in DOMAIN ws.ck THEN ws.ck[r.ck] ELSE <<>>
       \* "... reporting Remove unless the watched parent directory already did" (C09): the end of a watch may stay silent only
       \* if a parent directory watch of this Watcher really reported the removal.  (The code asks instead whether Dir(path) is
@@ -265,8 +270,9 @@ Consume(ws0, v, j) ==
   IN IF x.from # <<>> THEN Note(w4, "rename_pair") ELSE w4
 
 \* the set of possible successor states
-RecvEv(ws0, v) ==
-  LET ws == IF ws0.phase = "closed" THEN [ws0 EXCEPT !.postClose = @ + 1] ELSE ws0 IN
+RecvEv(ws0, v0) ==
+  LET ws == IF ws0.phase = "closed" THEN [ws0 EXCEPT !.postClose = @ + 1] ELSE ws0
+      v  == IF ws0.recursive THEN [v0 EXCEPT !.name = NormP(@), !.from = NormP(@)] ELSE v0 IN
   IF v.op = 0 THEN {Bad(ws, {"C02"}, "empty_op")}
   ELSE IF ws.fog THEN {ws}
   ELSE
